@@ -205,9 +205,9 @@ func sharedOpt(t *rapid.T) *[]*oracle.F {
 }
 
 func genCase(t *rapid.T) Case {
-	names := gen.NamePool(gen.Uniform(t, 1, 6, "names"))
+	names := gen.Names(t, gen.Uniform(t, 1, 6, "names"))
 	if gen.Chance(t, 1, 5, "manyNames") {
-		names = gen.NamePool(8)
+		names = gen.Names(t, 8)
 	}
 	return Case{F: gen.Formula(t, gen.FormulaOpts{MaxDepth: rapid.IntRange(1, 4).Draw(t, "depth"), Names: names, MaxGroup: 8, BigGroupsPos: true, Groups: &[][]string{}, Shared: sharedOpt(t)}, 0, 1)}
 }
